@@ -29,6 +29,7 @@ type Program struct {
 
 	cellMu      sync.RWMutex
 	fnInfos     sync.Map
+	offs        sync.Map
 	written     map[string]bool
 	writtenGrew bool
 }
@@ -156,6 +157,7 @@ type State struct {
 	handles     []interface{}
 	handleOf    map[interface{}]uint64
 	typeHandles map[string]uint64
+	typeHandlesP map[types.Type]uint64
 	strCache    map[string]StrV
 	globals     map[*ssa.Global]*Obj
 	zero8       *Term
@@ -201,6 +203,9 @@ type State struct {
 	ghost    map[string]Value
 
 	violation *Violation
+	gen       int
+	pendA     []*Term
+	pendMsg   []string
 	errMsgs       map[uint64]string
 	sharedHandles map[interface{}]bool
 	userAllocs    int
@@ -222,6 +227,7 @@ func (st *State) abort(k abortKind, msg string) {
 
 // fail reports a runtime failure / violated assertion on the current path.
 func (st *State) fail(msg string) {
+	st.flushAsserts()
 	st.recordViolation(msg, "runtime", nil)
 	panic(pathAbort{abFail, msg})
 }
@@ -257,6 +263,37 @@ func (st *State) stackString() string {
 		fmt.Fprintf(&sb, "  %s %s\n", fr.fn.String(), pos)
 	}
 	return sb.String()
+}
+
+// flushAsserts discharges the pending assertions with one query: pc ∧ ¬(a1 ∧ ... ∧ an).
+// Assertions are never assumed, so every input reaches the end of some explored path and is covered by that
+// path's flush.
+func (st *State) flushAsserts() {
+	if len(st.pendA) == 0 {
+		return
+	}
+	pa, pm := st.pendA, st.pendMsg
+	st.pendA, st.pendMsg = nil, nil
+	conj := st.c.True
+	for _, a := range pa {
+		conj = st.c.BAnd(conj, a)
+	}
+	r, m := st.query(st.c.BNot(conj))
+	switch r {
+	case Sat:
+		msg := "one of: " + pm[0]
+		memo := map[*Term]uint64{}
+		for i, a := range pa {
+			if v, ok := st.c.Eval(a, m, memo); ok && v == 0 {
+				msg = pm[i]
+				break
+			}
+		}
+		st.recordViolation("assertion failed: "+msg, "assert", m)
+		panic(pathAbort{abFail, msg})
+	case Unknown:
+		st.assertsU++
+	}
 }
 
 // ---- path condition and solver interaction
